@@ -83,7 +83,7 @@ def run_case(ctx, kind_, idx):
                 sc = abs(a) * float(np.max(np.abs(y))) + abs(b)
                 e = tol.maxerr(ys2, a * ys + b, sc)
                 ctx.track_worst("value_map_rel", e)
-                if e > loose * tol.rel_for(x) or not np.array_equal(xs2, xs):
+                if not e <= loose * tol.rel_for(x) or not np.array_equal(xs2, xs):
                     i = int(np.argmax(np.abs(ys2 - (a * ys + b))))
                     ctx.violation("value_map_does_not_commute", cid, {"a": a, "b": b, "sample": i, "got": ys2[i],
                                                                       "want": a * ys[i] + b, "case": info})
@@ -102,7 +102,7 @@ def run_case(ctx, kind_, idx):
                 sc = float(np.max(np.abs(y)))
                 e = tol.maxerr(ys2, ys, sc)
                 ctx.track_worst("time_map_rel", e / max(rel / 1e-9, 1))
-                if e > rel:
+                if not e <= rel:
                     i = int(np.argmax(np.abs(ys2 - ys)))
                     ctx.violation("time_map_changes_values", cid, {"c": c, "d": d, "sample": i, "got": ys2[i],
                                                                    "want": ys[i], "case": info})
@@ -151,7 +151,7 @@ def run_case(ctx, kind_, idx):
                 ctx.monitor("c07:weights")
                 rel = loose * tol.rel_for(x)
                 rs = W.sum(axis=1)
-                if np.max(np.abs(rs - 1.0)) > rel * m:
+                if not np.max(np.abs(rs - 1.0)) <= rel * m:
                     i = int(np.argmax(np.abs(rs - 1.0)))
                     ctx.violation("weights_do_not_sum_to_one", cid, {"sample": i, "row_sum": rs[i], "case": info})
                     return
@@ -172,7 +172,7 @@ def run_case(ctx, kind_, idx):
                 sc = float(np.sum(np.abs(W) @ np.abs(y).reshape(-1, 1))) / len(ys) + float(np.max(np.abs(y)))
                 e = tol.maxerr(W @ y, ys, sc)
                 ctx.track_worst("linearity_rel", e)
-                if e > rel * m:
+                if not e <= rel * m:
                     ctx.violation("not_linear_in_values", cid, {"err": e, "case": info})
                     return
                 ctx.nontriv("c07", idx)
